@@ -11,13 +11,16 @@
     for _, r := range rows { if r == nil {continue}; r.M() }   -- `eachGuarded`
 
   Also the error wrapping of /repo/errors.go (`wrapError`) as a total
-  function into the documented keys, and the stamp loop of
+  function into the documented keys, the stamp loop of
   bill.validatePrecedingData with possibly-nil option stamps
-  (`row.Provider` on a nil row).
+  (`row.Provider` on a nil row), and how the command line presents the error
+  that ended it (/repo/internal/cli/errors.go `wrapError`, `WrapError`,
+  `isEncodingError`; /repo/cmd/gobl/main.go `printError` / `writeError`).
 
   Core Lean only.
 -/
 import GoblVerif.Model.Correct
+import GoblVerif.Spec.C14
 
 namespace GoblVerif.Panics
 
@@ -100,5 +103,77 @@ def collectStampsNil (site : String) (have_ : List (Option Stamp)) : List String
       match collectStampsNil site have_ ks with
       | .ok rest => .ok (s :: rest)
       | o => o
+
+/-! ### the error the command line prints
+
+    cmd/gobl/main.go:   if err := run(); err != nil { printError(err); os.Exit(1) }
+                        printError → writeError: enc.Encode(cli.WrapError(err))
+    internal/cli/errors.go: type Error struct { Code; Key `omitempty`; Fields `omitempty`; Message `omitempty` }
+-/
+
+/-- cli.Error, the one structure errors are printed in; of `Fields` only
+    whether there are any is kept -/
+structure CliError where
+  code : Nat
+  key : String
+  fields : Bool
+  message : String
+deriving DecidableEq, Repr
+
+/-- what a command can hand to `main`, by what `errors.As` / the type switch find in it -/
+inductive CliErrIn
+  /-- a `*cli.Error` (directly or wrapped with `%w`): made by `cli.wrapError` -/
+  | structured (e : CliError)
+  /-- a `*gobl.Error`: its `Key()`, whether `Fields()` is non-nil, its `Message()` -/
+  | lib (key : String) (fields : Bool) (message : String)
+  /-- `*json.MarshalerError`, `*json.UnsupportedTypeError`, `*json.UnsupportedValueError`:
+      the result of the command could not be encoded; `text` is `err.Error()` -/
+  | encoding (text : String)
+  /-- any other error (cobra's unknown command / flag, `*fs.PathError`, `errors.New`); `text` is `err.Error()` -/
+  | plain (text : String)
+deriving DecidableEq, Repr
+
+def statusBadRequest : Nat := 400
+def statusUnprocessableEntity : Nat := 422
+
+/-- the key of `gobl.ErrMarshal` -/
+def marshalKey : String := "marshal"
+
+/-- cli.wrapError(code, err): a `*cli.Error` is returned as it is, a
+    `*gobl.Error` gives key, fields and message, anything else its text as message -/
+def cliWrapError (code : Nat) : CliErrIn → CliError
+  | .structured e => e
+  | .lib k f m => ⟨code, k, f, m⟩
+  | .encoding t => ⟨code, "", false, t⟩
+  | .plain t => ⟨code, "", false, t⟩
+
+/-- cli.WrapError(err) for a non-nil error: what `printError` encodes.
+    `gobl.ErrMarshal.WithCause(err)` is a `*gobl.Error` with key `marshal`, no
+    field errors and `Message() = err.Error()`. -/
+def cliPresent : CliErrIn → CliError
+  | .structured e => e
+  | .encoding t => cliWrapError statusUnprocessableEntity (.lib marshalKey false t)
+  | e => cliWrapError statusBadRequest e
+
+/-- the members of the JSON text of a `cli.Error` (`omitempty` on all but `code`) -/
+def CliError.members (e : CliError) : List String :=
+  ["code"] ++ (if e.key = "" then [] else ["key"]) ++ (if e.fields then ["fields"] else []) ++
+    (if e.message = "" then [] else ["message"])
+
+/-- the printed error as the specification sees it -/
+def CliError.shown (e : CliError) : GoblVerif.Spec.C14.Shown := ⟨e.code, e.key, e.fields, e.message⟩
+
+/-- what is assumed about the error handed to `main`: a `*cli.Error` is
+    structured already (they are made by `cli.wrapError` with one of the status
+    constants), a `*gobl.Error` carries one of the keys of `NewError`, and an
+    error has a text (`errors.New("")` is not covered) -/
+def CliErrIn.WellFormed (documented : List String) : CliErrIn → Prop
+  | .structured e => GoblVerif.Spec.C14.structured documented e.shown = true
+  | .lib k _ _ => k ∈ documented
+  | .encoding t => t ≠ ""
+  | .plain t => t ≠ ""
+
+/-- the process exit status after an error (unchanged by the presentation) -/
+def cliExitCode : Nat := 1
 
 end GoblVerif.Panics
